@@ -477,7 +477,54 @@ func checkRoundTripRemote(rep *Report, x sourceaddrs.RemoteSource, how string, r
 	}
 }
 
+// SourceFilename / FinalSourceFilename: the last segment of the sub-path or local path ("." for none)
+func lastSeg(p string) string {
+	p = strings.TrimRight(p, "/")
+	if p == "" {
+		return "."
+	}
+	if i := strings.LastIndex(p, "/"); i >= 0 {
+		return p[i+1:]
+	}
+	return p
+}
+
+func checkFilename(rep *Report, x interface{}, how string) {
+	defer func() {
+		if r := recover(); r != nil {
+			rep.AddOracle(OracleFailure{Property: "C19", Lane: "addr", What: fmt.Sprintf("SourceFilename/FinalSourceFilename panics on %s: %v", how, r), Input: how})
+		}
+	}()
+	var got, part string
+	switch v := x.(type) {
+	case sourceaddrs.LocalSource:
+		got, part = sourceaddrs.SourceFilename(v), v.RelativePath()
+		if g2 := sourceaddrs.FinalSourceFilename(v); g2 != got {
+			got = got + "|" + g2
+		}
+	case sourceaddrs.RemoteSource:
+		got, part = sourceaddrs.SourceFilename(v), v.SubPath()
+		if g2 := sourceaddrs.FinalSourceFilename(v); g2 != got {
+			got = got + "|" + g2
+		}
+	case sourceaddrs.RegistrySource:
+		got, part = sourceaddrs.SourceFilename(v), v.SubPath()
+	case sourceaddrs.RegistrySourceFinal:
+		got, part = sourceaddrs.FinalSourceFilename(v), v.SubPath()
+	default:
+		return
+	}
+	want := lastSeg(part)
+	if part == "./" || part == "../" {
+		want = strings.TrimSuffix(part, "/")
+	}
+	if got != want {
+		rep.AddOracle(OracleFailure{Property: "C11", Lane: "addr", What: fmt.Sprintf("file name of %s is %q, the last segment of %q is %q", how, got, part, want), Input: how})
+	}
+}
+
 func checkRoundTripSource(rep *Report, x sourceaddrs.Source, how string) {
+	checkFilename(rep, x, how)
 	if r, ok := x.(sourceaddrs.RemoteSource); ok {
 		checkRoundTripRemote(rep, r, how, 0)
 		return
@@ -503,6 +550,7 @@ func checkRoundTripSource(rep *Report, x sourceaddrs.Source, how string) {
 }
 
 func checkRoundTripFinal(rep *Report, x sourceaddrs.FinalSource, how string) {
+	checkFilename(rep, x, how)
 	if r, ok := x.(sourceaddrs.RemoteSource); ok {
 		checkRoundTripRemote(rep, r, how, 0)
 		return
